@@ -4,6 +4,7 @@ package main
 // contracts, inlining, and havoc for everything else.
 
 import (
+	"os"
 	"fmt"
 	"go/ast"
 	"go/token"
@@ -135,15 +136,20 @@ func (f *Frame) callCommon(st *execState, c *ssa.CallCommon, rtype types.Type, p
 	args := make([]Val, len(c.Args))
 	for i, a := range c.Args {
 		args[i] = f.operand(st.env, a)
+		if _, bad := args[i].(FieldRefV); bad {
+			panic(specError{"the address of a field of an unpacked object is passed to a call in " + fnName(f.fn)})
+		}
 	}
 	if c.IsInvoke() {
 		recv := f.operand(st.env, c.Value)
 		name := "(" + shortName(types.TypeString(c.Value.Type(), nil)) + ")." + c.Method.Name()
+		all := append([]Val{recv}, args...)
 		if con := e.contractFor(name); con != nil {
-			all := append([]Val{recv}, args...)
-			return f.modularCall(st, nil, name, con, c.Signature(), all, rtype, pos, hint, true)
+			return f.packedCall(st, all, true, func() Val {
+				return f.modularCall(st, nil, name, con, c.Signature(), all, rtype, pos, hint, true)
+			})
 		}
-		return f.havocCall(st, name, append([]Val{recv}, args...), rtype, hint, pos)
+		return f.packedCall(st, all, true, func() Val { return f.havocCall(st, name, all, rtype, hint, pos) })
 	}
 	switch callee := c.Value.(type) {
 	case *ssa.Builtin:
@@ -162,9 +168,11 @@ func (f *Frame) callCommon(st *execState, c *ssa.CallCommon, rtype types.Type, p
 	}
 	// call through a function value: field contract?
 	if con := f.fieldContractFor(c.Value); con != nil {
-		return f.modularCall(st, nil, con.Target, con, c.Signature(), args, rtype, pos, hint, false)
+		return f.packedCall(st, args, true, func() Val {
+			return f.modularCall(st, nil, con.Target, con, c.Signature(), args, rtype, pos, hint, false)
+		})
 	}
-	return f.havocCall(st, "func value "+c.Value.Name(), args, rtype, hint, pos)
+	return f.packedCall(st, args, true, func() Val { return f.havocCall(st, "func value "+c.Value.Name(), args, rtype, hint, pos) })
 }
 
 // fieldContractFor: a call through a function-typed struct field T.f uses the
@@ -193,8 +201,23 @@ func (f *Frame) staticCall(st *execState, fn *ssa.Function, args, free []Val, rt
 		return h(f, st, args, pos)
 	}
 	con := e.contractFor(name)
-	if con != nil && !con.Inline {
-		return f.modularCall(st, fn, name, con, fn.Signature, args, rtype, pos, hint, false)
+	if f.top && f.inlineSet == nil && f.con != nil && len(f.con.InlineCalls) > 0 {
+		f.inlineSet = map[string]bool{}
+		for _, n := range f.con.InlineCalls {
+			f.inlineSet[n] = true
+		}
+	}
+	forced := f.inlineSet[name]
+	if os.Getenv("GOVC_DEBUG") != "" {
+		fmt.Fprintf(os.Stderr, "staticCall %s forced=%v set=%v top=%v con=%v\n", name, forced, f.inlineSet, f.top, f.con != nil)
+	}
+	if forced && len(fn.Blocks) == 0 {
+		forced = false
+	}
+	if con != nil && !con.Inline && !forced {
+		return f.packedCall(st, append(append([]Val{}, args...), free...), false, func() Val {
+			return f.modularCall(st, fn, name, con, fn.Signature, args, rtype, pos, hint, false)
+		})
 	}
 	if pureExternals[name] {
 		e.trusted["pure external: "+name] = true
@@ -208,7 +231,7 @@ func (f *Frame) staticCall(st *execState, fn *ssa.Function, args, free []Val, rt
 		}
 		return r
 	}
-	inl := con != nil && con.Inline
+	inl := (con != nil && con.Inline) || forced
 	if !inl && con == nil && len(fn.Blocks) > 0 && e.autoInline(fn, f.depth) {
 		inl = true
 	}
@@ -223,14 +246,25 @@ func (f *Frame) staticCall(st *execState, fn *ssa.Function, args, free []Val, rt
 			g.idPrefix = fnName(f.fn)
 		}
 		g.counters = f.counters
+		g.inlineSet = f.inlineSet
+		if len(f.unp) > 0 {
+			g.unp = f.unp
+			g.unpIn = map[*unpObj]Val{}
+			for _, o := range f.unp {
+				g.unpIn[o] = st.env[unpackKey{o}]
+			}
+		}
 		res, mem, gh, flags, _ := g.run(args, free, st.mem, st.gh, st.reach, st.st)
+		for o, v := range g.unpOut {
+			st.env[unpackKey{o}] = v
+		}
 		st.mem = mem
 		st.gh = gh
 		st.st = flags
 		f.allocs = append(f.allocs, g.allocs...)
 		return res
 	}
-	return f.havocCall(st, name, args, rtype, hint, pos)
+	return f.packedCall(st, append(append([]Val{}, args...), free...), false, func() Val { return f.havocCall(st, name, args, rtype, hint, pos) })
 }
 
 // autoInline: small loop-free helpers of the verified module / segmentio/asm.
@@ -713,6 +747,9 @@ func (f *Frame) frameCheck(st *execState, addr, size *Term, pos token.Pos, what 
 		alts = append(alts, within(r.ptr, r.size))
 	}
 	alts = append(alts, tb.Eq(size, tb.ConstU(0, 64)))
+	// memory above the address-space split did not exist for the caller
+	// (allocations and pool objects handed out during the call)
+	alts = append(alts, tb.Ule(tb.ConstU(preLimit, 64), addr))
 	f.oblige(st, "frame", "", st.reach, tb.Or(alts...), pos, "write stays inside the modifies clause: "+what)
 }
 
